@@ -1,4 +1,5 @@
 Require Import ExtrOcamlBasic.
-From Eupsv Require Import Base.Base Model.VersionCompare Model.VersionKey.
+From Eupsv Require Import Base.Base Model.VersionCompare Model.VersionKey Model.VersionStacks.
 Extraction "model.ml" keep_types version_cmp version_cmp_strict version_cmp_pinned version_cmp_strict_pinned
-  split_version cmp_primaries version_match tokenize items latest conv key key_compare accepts.
+  split_version cmp_primaries version_match tokenize items latest conv key key_compare accepts
+  latest_over_stacks latest_listing.
